@@ -20,8 +20,12 @@ class P:
     def __init__(self, name, default, eff, form, supplied):
         self.name, self.default, self.eff, self.form, self.supplied = name, default, eff, form, supplied
 
-    def render(self):
+    def render(self, macro_ok=True):
         d = self.default
+        if self.form == "macro" and macro_ok and self.macro_able():
+            # the parameter is read inside a macro that lives in a file imported WITHOUT context: only what the loader makes available
+            # to every template (not just to the top-level render call) is visible there
+            return "{{ vm.m_%s() }}" % self.name
         if isinstance(d, bool):
             lit = "true" if d else "false"
         elif isinstance(d, str):
@@ -46,6 +50,17 @@ class P:
         if f == "tight":
             return "{{%s|default(%s)}}" % (self.name, lit)
         return "{{ %s | default(%s) }}" % (self.name, lit)
+
+
+def _macro_able(p):
+    return isinstance(p.default, int) and not isinstance(p.default, bool) and isinstance(p.eff, int) and not isinstance(p.eff, bool)
+
+
+P.macro_able = _macro_able
+
+
+def macro_definition(p):
+    return "{%% macro m_%s() %%}{{ %s | default(%r) }}{%% endmacro %%}" % (p.name, p.name, p.default)
 
 
 class PV:
@@ -145,6 +160,7 @@ class Printer:
         self.refs = {}  # param name -> set of contexts in which it is referenced
         self.stack = ["main"]
         self.coll_dirs = []  # directories of the enclosing (textually assembled) collects: a nested collect is relative to them
+        self.macros = {}  # parameter name -> P, for parameters read through an imported macro file
 
     def ctx(self):
         if "macro-part" in self.stack:
@@ -162,8 +178,15 @@ class Printer:
     def emit(self, node, ind=0):
         pad = " " * ind
         if isinstance(node, P):
-            self.ref(node)
-            return node.render()
+            # the imported name `vm` is known in track.json, in textually collected parts and in {% include %}d files (they get the context),
+            # not in body files (rendered on their own) nor in parts that the collect *macro* renders
+            macro_ok = self.ctx() in ("main", "collect-part", "jinja-include")
+            if node.form == "macro" and macro_ok and node.macro_able():
+                self.macros[node.name] = node
+                self.refs.setdefault(node.name, set()).add("imported-macro-file")
+            else:
+                self.ref(node)
+            return node.render(macro_ok)
         if isinstance(node, Inc):
             self.stack.append("jinja-include")
             self.files[node.path] = self.emit(node.node, 0) + "\n"
@@ -230,10 +253,14 @@ def print_track(spec, header_sets, use_import, body_files):
         head += "{%% set %s = %s %%}\n" % (name, json.dumps(val))
     if use_import:
         head += '{% import "rally.helpers" as rally with context %}\n' if (header_sets or use_import == "ctx") else '{% import "rally.helpers" as rally %}\n'
-    pr.files["track.json"] = head + pr.emit(spec, 0) + "\n"
+    body = pr.emit(spec, 0)
     pr.stack = ["body-file"]
     for fname, tree in body_files.items():
         pr.files[fname] = pr.emit(tree, 0) + "\n"
+    if pr.macros:
+        pr.files["verif_macros.json"] = "\n".join(macro_definition(p) for p in pr.macros.values()) + "\n"
+        head += '{% import "verif_macros.json" as vm %}\n'
+    pr.files["track.json"] = head + body + "\n"
     return pr.files, {k: sorted(v) for k, v in pr.refs.items()}
 
 
@@ -340,6 +367,9 @@ class Gen:
         else:
             default = eff
             form = rng.choice(["spaced", "tight", "tojson"])
+        if isinstance(eff, int) and not isinstance(eff, bool) and rng.random() < 0.15:
+            form = "macro"
+            self.features.add("param-in-imported-macro")
         self.params[name] = {"default": default, "eff": eff, "supplied": supplied, "form": form}
         self.features.add("param-supplied" if supplied else "param-default")
         return P(name, default, eff, form, supplied), PV(eff, name)
